@@ -7,6 +7,7 @@ import Driver.Util
 import Driver.Mlpg
 import Driver.Voc
 import Jb.Model.Engine
+import Jb.Model.EngineWFb
 
 namespace Drv.Pipe
 open Drv Jb
@@ -179,7 +180,7 @@ def runCase (pc : PipeCase) : Verdict := Id.run do
     | none => 0
   let total := match pc.out.params with | some (_, lf0, _) => lf0.length | none => 0
   return { corr, oracle := orc, nontriv := pc.nlabels ≥ 2 && voiced ≥ 1 && voiced < total,
-           cls := s!"{pc.kind}:ns{pc.c.ns}:st{min c.stage 1}:{if c.alignment then "align" else "speed"}:{if pc.nlabels == 0 then "empty" else "n"}:nstate{nstate}",
+           cls := s!"{pc.kind}:ns{pc.c.ns}:st{min c.stage 1}:{if c.alignment then "align" else "speed"}:{if pc.nlabels == 0 then "empty" else "n"}:nstate{nstate}:{if Jb.engineWFb c pc.inp then "wf" else "NOT-WF"}",
            bitsOk := bo, bitsAll := ba }
 
 def run : P Verdict := do
